@@ -866,3 +866,23 @@ def _deep_nesting(repo, ob, failure):
 
 GENERATORS.insert(0, ("C01.expr.nest", _deep_nesting))
 GENERATORS.insert(0, ("C01.expr.depth", _deep_nesting))
+
+
+def _mirror_scale(repo, ob, failure):
+    """a group scaled by a negative factor (mirrored) contributes the bounding box of its image"""
+    import re as _re
+    cases = [('<svg><g transform="scale(-1 1)"><rect wh="5"/></g></svg>', "-5 0 5 5"),
+             ('<svg><g transform="translate(10 0) scale(1 -2)"><rect xy="1 1" wh="2 3"/></g></svg>', "11 -8 2 6"),
+             ('<svg><g transform="scale(2)"><rect xy="1 1" wh="2 3"/></g></svg>', "2 2 4 6")]
+    for doc, want in cases:
+        r = run_svgdx(repo, doc, args=("--border", "0"))
+        if r["rc"] != 0:
+            continue
+        m = _re.search(r'viewBox="([^"]*)"', r["out"])
+        if not m or m.group(1) != want:
+            return {"input": doc, "args": ["--border", "0"], "observed": "viewBox=%r" % (m and m.group(1)), "expected": "viewBox=%r" % want}
+    return None
+
+
+GENERATORS.insert(0, ("C08.transform.scale", _mirror_scale))
+GENERATORS.insert(0, ("C08.transform.order", _mirror_scale))
